@@ -491,7 +491,7 @@ Definition point_ok (q : req) : Prop :=
   match q with
   | QCreate _ v | QUpdate _ v _ => v <> []
   | QDelete _ _ | QGet _ _ | QList _ _ _ _ => True
-  | QCompact _ => False
+  | QCompact _ | QCount _ _ | QStream _ _ _ => False
   end.
 
 Lemma rel_q_step st rt q : RelB st rt -> point_ok q ->
